@@ -179,10 +179,40 @@ def pin_rule(ctx):
     ok = bool(stores) and g.exit.id not in rr
     ctx.ob('C05-PIN.get_codeobject_id-stores-the-object', gid, stores[0].ast if stores else gid.node, ok,
            '' if ok else 'get_codeobject_id can return an id without keeping a reference to the code object')
+    pin_store_strong(ctx)
     dec = repo.fn('pony.orm.decompiling', 'decompile')
     ks = [s for s in walk_no_nested(dec.node) if isinstance(s, ast.Assign) and any(dotted(t) == 'key' for t in s.targets)]
     ok = bool(ks) and all(norm(s.value).startswith('get_codeobject_id(') for s in ks)
     ctx.ob('C05-PIN.ast_cache-keyed-by-pinned-id', dec, ks[0] if ks else dec.node, ok, '' if ok else 'decompile() keys ast_cache by %s' % [norm(s.value) for s in ks])
+
+
+def pin_store_strong(ctx, prefix='C05-PIN'):
+    """the table get_codeobject_id stores into really pins: it is an ordinary dict for the whole life of the process (a weak
+    container, or any function that removes entries, lets a code object die while its id is still a key of five caches)."""
+    repo = ctx.repo
+    m = repo.mod('pony.utils.utils')
+    binds = [s for s in m.tree.body if isinstance(s, (ast.Assign, ast.AnnAssign)) and any(dotted(t) == 'codeobjects' for t in (s.targets if isinstance(s, ast.Assign) else [s.target]))]
+    ctx.need(bool(binds), prefix + ': module-level table `codeobjects` not found in pony/utils/utils.py')
+    gid = repo.fn('pony.utils.utils', 'get_codeobject_id')
+    for b in binds:
+        v = b.value
+        ok = (isinstance(v, ast.Dict) and not v.keys) or (isinstance(v, ast.Call) and dotted(v.func) in ('dict', 'builtins.dict') and not v.args and not v.keywords)
+        ctx.ob(prefix + '.pin-table-holds-strong-references', gid, b, ok, '' if ok else 'the table that is supposed to keep decompiled code objects alive is bound to '
+               '`%s`, not a plain dict: a code object can be collected while its id() is still a key of ast_cache and of the translator caches, and the next '
+               'lambda allocated at that address is served the old one\'s tree' % norm(v), node=b)
+    removers = []
+    for fn in repo.rule_funcs():
+        for x in walk_no_nested(fn.node):
+            hit = None
+            if isinstance(x, ast.Delete) and any(isinstance(t, ast.Subscript) and dotted(t.value) in ('codeobjects', 'utils.codeobjects') for t in x.targets): hit = x
+            if isinstance(x, ast.Call) and isinstance(x.func, ast.Attribute) and x.func.attr in ('pop', 'popitem', 'clear') and dotted(x.func.value) in ('codeobjects', 'utils.codeobjects'): hit = x
+            if isinstance(x, (ast.Assign, ast.AugAssign)) and fn is not gid and any(dotted(t) == 'codeobjects' for t in (x.targets if isinstance(x, ast.Assign) else [x.target])) \
+               and any(isinstance(g, ast.Global) and 'codeobjects' in g.names for g in walk_no_nested(fn.node)): hit = x
+            if hit is not None: removers.append((fn, hit))
+    for fn, hit in removers:
+        ctx.ob(prefix + '.pin-table-never-shrinks', fn, hit, False, 'entries of the pin table are removed here: the ids stay keys of the caches built on them', node=hit)
+    if not removers:
+        ctx.ob(prefix + '.pin-table-never-shrinks', gid, gid.node, True, '')
 
 
 def fixed_rule(ctx, prefix='C05-FIXED'):
@@ -351,6 +381,7 @@ MUTANTS = [
     dict(id='C05-m5', file='pony/orm/sqltranslation.py', fn='FuncGetattrMonad.call', old='translator = monad.translator.root_translator', new='translator = monad.translator', expect='C05-FIXED.value-dependent'),
     dict(id='C05-m6', file='pony/orm/sqltranslation.py', fn='FuncGetattrMonad.call', old='                translator.fixed_param_values[key] = attrname\n', new='', expect='C05-FIXED.value-read-is-recorded'),
     dict(id='C05-m7', file='pony/utils/utils.py', fn='get_codeobject_id', old='        codeobjects[codeobject_id] = codeobject', new='        pass', expect='C05-PIN.get_codeobject_id'),
+    dict(id='C05-m7b', file='pony/utils/utils.py', fn=None, old='codeobjects = {}', new='import weakref\ncodeobjects = weakref.WeakValueDictionary()', expect='C05-PIN.pin-table-holds-strong'),
     dict(id='C05-m8', file='pony/orm/decompiling.py', fn='decompile', old='key = get_codeobject_id(codeobject)', new='key = id(codeobject)', expect='C05-PIN.ast_cache'),
     dict(id='C05-m9', file='pony/orm/core.py', fn='Query._get_translator', old='                if val != new_vars[key]:\n                    database._translator_cache.pop(query_key, None)  # another thread may have removed it already\n                    return None, vars.copy()', new='                pass', expect='C05-FIXED.cached-translator'),
     dict(id='C05-m10', file='pony/orm/core.py', fn='EntityMeta._get_from_identity_map_', old='        cache = entity._database_._get_cache()', new='        cache = entity._database_._get_cache()  # unchanged', benign=True),
